@@ -47,6 +47,15 @@ func newRaceReports(path string, off *int64) []raceReport {
 				in = false
 			case in && t != "" && !strings.HasPrefix(t, "/") && !strings.HasPrefix(t, "<") && !strings.Contains(t, ".go:"):
 				cur = append(cur, t) // function line
+			case in && len(cur) > 0 && strings.HasPrefix(t, "/") && strings.Contains(t, ".go:"):
+				// the source line of the frame above. A closure of the repository that the compiler inlined
+				// into a harness function carries the harness function's symbol ("verif/sim/worlds.(*Env).
+				// NewTCPWorld.VerifNewServer.RouteList.Compile.func3"): the file says whose code it is
+				if fn := cur[len(cur)-1]; !strings.HasPrefix(fn, "github.com/mholt/caddy-l4/") {
+					if name := repoFrameName(fn, t); name != "" {
+						cur[len(cur)-1] = name
+					}
+				}
 			}
 		}
 		if in {
@@ -126,4 +135,45 @@ func isLibFrame(f string) bool {
 	}
 	// no slash: "runtime.foo", "sync.", "main.main"
 	return !strings.HasPrefix(path, "main.")
+}
+
+// repoFrameName: fn is the symbol of a stack frame, fileLine its "/path/file.go:123 +0x.." line.
+// If the file lies in the repository under test (not in an overlay file of the harness) the frame is
+// the repository's: the name returned has the repository's import path and what follows the harness
+// part of the symbol.
+func repoFrameName(fn, fileLine string) string {
+	root := os.Getenv("VERIF_REPO")
+	if root == "" {
+		root = "/repo"
+	}
+	root = strings.TrimRight(root, "/") + "/"
+	if !strings.HasPrefix(fileLine, root) || strings.Contains(fileLine, "zz_verif") || !strings.HasPrefix(fn, "verif/") {
+		return ""
+	}
+	rel := fileLine[len(root):]
+	dir := rel
+	if i := strings.LastIndex(rel, "/"); i >= 0 {
+		dir = rel[:i]
+	}
+	sym := fn
+	if i := strings.LastIndex(sym, "/"); i >= 0 {
+		sym = sym[i+1:]
+	}
+	if i := strings.Index(sym, "("); i >= 0 && strings.HasSuffix(sym, ")") {
+		if j := strings.LastIndex(sym, "("); j > 0 {
+			sym = sym[:j] // argument list
+		}
+	}
+	parts := strings.Split(sym, ".")
+	k := 0
+	for i, p := range parts {
+		if strings.HasPrefix(p, "Verif") || strings.Contains(p, ")") || i == 0 {
+			k = i + 1
+		}
+	}
+	tail := strings.Join(parts[k:], ".")
+	if tail == "" {
+		tail = "inlined"
+	}
+	return "github.com/mholt/caddy-l4/" + dir + "." + tail
 }
